@@ -37,6 +37,8 @@ ASSUMPTIONS = [
     "template/probe comparison is differential testing over generated programs, not a proof about preprocessor.lua",
 ]
 
+NAN_KEY = "poly-comptime-nan: q(c: auto <comptime>) called with NaN twice"
+NAN_WITNESS = [10, 10]
 SIGNED_ZERO_KEY = "poly-comptime-signed-zero: q(c: auto <comptime>) called with 0.0 then -0.0"
 SIGNED_ZERO_WITNESS = [7, 8]          # indices into gen.POLYC_ARGS: 0.0, -0.0
 INJECT_KEY = "hygienize-inject-order: M0 = {emit}; M1 = {emit; M0(); emit}; both defined first; then a statement, M1(), a statement"
@@ -45,8 +47,8 @@ THEOREM_CLASSES = {
     "C16_memoize_canonical": "main", "C16_generic_same_type": "main", "C16_memoize_once_per_class": "corollary",
     "C16_polyeval_reuse": "definitional", "C16_polyeval_same_args_one_specialisation": "main",
     "C16_polyeval_distinct_types_distinct_specialisations": "main", "C16_polyeval_comptime_values_distinguish": "main",
-    "C16_value_comparison_must_separate_values": "refutation", "C16_polyeval_distinct_values_partial": "corollary",
-    "C16_polyeval_signed_zero": "main",
+    "C16_value_comparison_separation_needed": "refutation", "C16_polyeval_distinct_values_partial": "corollary",
+    "C16_polyeval_signed_zero": "tripwire",
     "C16_hygiene_resolution": "main", "C16_hygiene_no_leak": "main", "C16_restoring_pop_needed": "refutation",
     "C16_hygiene_unbound_names_fall_through_partial": "corollary",
     "C16_expand_for": "definitional", "C16_expand_loop_order": "definitional", "C16_expand_if_call": "definitional",
@@ -56,7 +58,8 @@ UNPROVED = [
     "clause 1 of the statement (code produced by ## loops / ## if / macros / #[ ]# / #| |# behaves like the hand expansion): preprocessor.lua is not modelled; the Coq expander is a specification and its theorems are definitional; the clause rests on compiling generated templates next to their expansion (stdout and emitted C modulo codenames)",
     "cross-nesting named by the quantifier (macros inside generics inside polymorphic functions): the generator nests for/if/macros inside templates and probes generics, polymorphic functions and hygiene separately, not inside one another",
     "memoize's real argument match (== with Type.__eq, shallow_compare_nomt on tables) being an equivalence: discharged only for the modelled match of generics (types by identity, values, nil: C16_generic_same_type); table arguments are covered by C07's memo stream",
-    "that same_comptime_value separates every pair of compile-time values code can tell apart: proved for the replayer's values (0.0 / -0.0 since cab9725: C16_polyeval_signed_zero); NaN and values with __eq metamethods are not covered",
+    "that same_comptime_value separates exactly the compile-time values code can tell apart: SCRAPED (both branches of poly_args_matches call it; its 1/a == 1/b line) and TESTED by the polyc stream; C16_polyeval_signed_zero is only a tripwire on the scraped flag (the model's value ids are abstract: with the flag every raw id is its own class, for the first two calls of a fresh function); values with __eq metamethods are not covered",
+    "NaN compile-time arguments: same_comptime_value answers false for NaN vs NaN, so every call with NaN creates a new specialisation (the reuse clause of the statement fails; behaviour is right): open known finding with a validated repair (harness/C16/proposed_repairs/01-poly-nan.diff)",
     "that each poly evaluation yields exactly one emitted C function: read from the emitted C in the poly stream only",
     "the hygiene model has one scope chain and one statement list: that hygienize switches context.scope / statnodes to the definition's (a generic called from another block than its definition) is assumed; covered by the hygiene_nested stream only",
     "statements generated into one place (between two source statements) by different hygienized functions run in generation order: checked on every generated nesting against the implementation and against the cursor model, not a theorem (C16_hygienize_own_order is about one function's own statements)",
@@ -64,7 +67,7 @@ UNPROVED = [
     "aster.value, inject_value, concepts: through the generated programs only",
 ]
 MANIFEST_ENTRY = {
-    "text": "proof, partial: theorems (on hand-written models tied by probe programs) for 'same arguments -> same type' (memoize, premises discharged for the modelled match), 'same argument types -> one specialisation, different -> distinct' (eval_poly), 'free names resolve where the generic was defined, nothing leaks' (checkpoints; restoring pop since b8843bb) and 'injected statements keep their order under nesting' (cursors, 6cc3727); the headline clause 'templates behave like their hand expansion' rests on differential compilation of generated templates only (definitional theorems about the specification expander)",
+    "text": "proof, partial (one open finding: NaN comptime arguments are never reused): theorems (on hand-written models tied by probe programs) for 'same arguments -> same type' (memoize, premises discharged for the modelled match), 'same argument types -> one specialisation, different -> distinct' (eval_poly), 'free names resolve where the generic was defined, nothing leaks' (checkpoints; restoring pop since b8843bb) and 'injected statements keep their order under nesting' (cursors, 6cc3727); the headline clause 'templates behave like their hand expansion' rests on differential compilation of generated templates only (definitional theorems about the specification expander)",
     "note": "trusted: coqc, regex/structural scrape of poly_args_matches, eval_poly, pop/set/push_checkpoint, hygienize, generalize; harness/C16/gen.py (template and probe generators, renderers, C canonicaliser); the real compiler + gcc; preprocessor.lua unmodelled",
     "technique": "Coq models of memoize / eval_poly / scope checkpoints / statement cursors + template-vs-expansion and probe programs through the real compiler",
 }
@@ -103,9 +106,14 @@ def _gen(ctx, problems):
     val_ne2 = r"(?:rarg\.value ~= larg\.value|not same_comptime_value\(rarg\.value, larg\.value\))"
     cmp_vals = bool(re.search(r"ltype\.is_comptime and traits\.is_attr\(larg\) then\s*if " + val_ne + r" or not traits\.is_attr\(rarg\) then\s*return false", body)
                     and re.search(r"traits\.is_attr\(larg\) and larg\.comptime then\s*if " + val_ne2 + r" or not traits\.is_attr\(rarg\) then\s*return false", body))
-    # a repair compares through same_comptime_value, which tells 0.0 from -0.0 (1/a == 1/b)
+    # since cab9725 BOTH branches compare through same_comptime_value, which tells 0.0 from -0.0 (1/a == 1/b)
     msz = re.search(r"local function same_comptime_value\(a, b\)(.*?)\nend", ty, re.S)
-    signed_zero = bool(msz and "same_comptime_value(" in body and re.search(r"1\s*/\s*a\s*==\s*1\s*/\s*b", msz.group(1)))
+    helper = re.sub(r"--[^\n]*", "", msz.group(1)) if msz else ""
+    both = bool(re.search(r"ltype\.is_comptime and traits\.is_attr\(larg\) then\s*if not same_comptime_value\(larg\.value, rarg\.value\) or not traits\.is_attr\(rarg\) then\s*return false", body)
+                and re.search(r"traits\.is_attr\(larg\) and larg\.comptime then\s*if not same_comptime_value\(rarg\.value, larg\.value\) or not traits\.is_attr\(rarg\) then\s*return false", body))
+    signed_zero = bool(both and re.search(r"if a ~= b then return [^\n]*?\bend", helper) and
+                       re.search(r"if a == 0 and math\.type\(a\) == 'float' and math\.type\(b\) == 'float' then return 1\s*/\s*a == 1\s*/\s*b end", helper))
+    nan_same = bool(both and re.search(r"if a ~= b then return a ~= a and b ~= b end", helper))
     if not re.search(r"function PolyFunctionType:eval_poly\(args, srcnode\)\s*local polyeval\s*if not self\.alwayspoly then\s*polyeval = self:get_poly_eval\(args\)\s*end\s*if not polyeval then\s*polyeval = \{ args = args, srcnode = srcnode\}\s*local evals = self\.evals\s*evals\[#evals\+1\] = polyeval", ty):
         problems.append("eval_poly is not the function the model mirrors")
     sc = vlib.repo_read("lualib/nelua/scope.lua")
@@ -146,7 +154,7 @@ def _gen(ctx, problems):
            "Definition HYGIENIZE_USES_CURSORS : bool := %s.\n"
            "Definition POLY_DISTINGUISHES_SIGNED_ZERO : bool := %s.\n" % tuple("true" if x else "false" for x in (cmp_vals, merges, adjusts, cursors, signed_zero)))
     vlib.write_if_changed(os.path.join(vlib.coq_dir(ID), "Gen.v"), txt)
-    ctx.c16 = {"poly_compares_comptime_values": cmp_vals, "pop_checkpoint_merges": merges, "hygienize_adjusts_caller": adjusts, "hygienize_uses_cursors": cursors, "poly_distinguishes_signed_zero": signed_zero}
+    ctx.c16 = {"poly_compares_comptime_values": cmp_vals, "pop_checkpoint_merges": merges, "hygienize_adjusts_caller": adjusts, "hygienize_uses_cursors": cursors, "poly_distinguishes_signed_zero": signed_zero, "poly_nan_same": nan_same}
     return dict(ctx.c16, generalize="generic(memoize(hygienize(func)))")
 
 
@@ -226,13 +234,23 @@ def correspond(ctx):
 
     # comptime arguments of every kind (false, 0, '', nil, 0.0 / -0.0 ...), falsy values first and second
     nk = len(g.POLYC_ARGS)
-    for fixed in ([0, 1, 0, 1], [1, 0, 1], [2, 3, 2], [4, 5, 4], [6, 0, 2, 4, 6], [8, 7], [0, 2, 4, 6, 1, 3, 5], SIGNED_ZERO_WITNESS):
+    rc_n, nan_text, _ = vlib.sh([interp, "-e", "io.write(tostring(0.0/0.0))"])
+    g.POLYC_ARGS[g.NAN_ARG] = g.POLYC_ARGS[g.NAN_ARG][:4] + (nan_text,)
+    for fixed in ([0, 1, 0, 1], [1, 0, 1], [2, 3, 2], [4, 5, 4], [6, 0, 2, 4, 6], [8, 7], [0, 2, 4, 6, 1, 3, 5], SIGNED_ZERO_WITNESS, NAN_WITNESS, [10, 9, 10, 7]):
         cases.append(("polyc", fixed))
     for _ in range(ctx.scale(10, 200)):
         cases.append(("polyc", [rng.randrange(nk) for _ in range(rng.randint(2, 7))]))
     for i in range(ctx.scale(16, 400)):
         cases.append(("inject", g.gen_inject(rng, nested=(i % 4 != 3))))
     cases.append(("inject", INJECT_WITNESS))
+
+    flags16 = getattr(ctx, "c16", None) or {}
+
+    def polyc_class(i, a):
+        """the class of the i-th call's comptime value under the comparison the code uses (as scraped)"""
+        if a == g.NAN_ARG:
+            return 23 if flags16.get("poly_nan_same") else 40 + i            # a ~= a: never equal to an earlier NaN
+        return g.POLYC_ARGS[a][2 if flags16.get("poly_distinguishes_signed_zero") else 3]
 
     # ------------------------------------------------------------ model
     mlines = list(corpus_lines)
@@ -250,8 +268,7 @@ def correspond(ctx):
         elif kind == "poly":
             mlines.append("poly %d %s" % (int(p[1]), "|".join("%s;1:0:1:1:%d" % (g.POLY_ARGS[a][1], n) for a, n in p[0])))
         elif kind == "polyc":
-            szd = (getattr(ctx, "c16", None) or {}).get("poly_distinguishes_signed_zero")     # then every raw value is its own class
-            mlines.append("poly 0 " + "|".join("%d:0:1:1:%d;1:0:0:0:-" % (g.POLYC_ARGS[a][1], g.POLYC_ARGS[a][2 if szd else 3]) for a in p))
+            mlines.append("poly 0 " + "|".join("%d:0:1:1:%d;1:0:0:0:-" % (g.POLYC_ARGS[a][1], polyc_class(i, a)) for i, a in enumerate(p)))
         elif kind == "inject":
             mlines.append(g.inject_case(*p)[0])
         else:
@@ -319,6 +336,7 @@ def correspond(ctx):
     leak_witness_reproduced, leak_instances = [], []
     inject_witness_reproduced, inject_instances = [], []
     zero_witness_reproduced, zero_instances = [], []
+    nan_witness_reproduced, nan_instances = [], []
 
     def oracle_fail(key, summary, detail):
         stats["oracle_failures"] += 1
@@ -430,12 +448,20 @@ def correspond(ctx):
             same_as_expansion = r["rc"] == 0 and r["xrc"] == 0 and r["out"] == r["xout"]
             if not same_as_expansion or got_out != exp_out or used != oidx:
                 wrong = [i for i, (a_, b_) in enumerate(zip(got_out, exp_out)) if a_ != b_]
-                fm, midx = {}, []
-                for a in p:                               # the oracle with 0.0 and -0.0 taken as one value (Lua ==)
-                    midx.append(fm.setdefault(g.POLYC_ARGS[a][3], len(fm)))
-                if (getattr(ctx, "c16", None) or {}).get("poly_distinguishes_signed_zero"):
-                    midx = None          # the code claims to tell them apart: nothing is explained by ==
-                only_signed_zero = r["rc"] == 0 and used == idx == midx and all(p[i] in (7, 8) for i in wrong)
+                # explained by the comparison the code uses (the model has its classes): the specialisations are
+                # the model's, and the output differs from the expansion at 0.0 / -0.0 arguments only
+                explained = r["rc"] == 0 and used == idx and all(p[i] in (7, 8) for i in wrong) and len(got_out) == len(exp_out)
+                nan_only = explained and not wrong and g.NAN_ARG in p and not flags16.get("poly_nan_same")
+                only_signed_zero = explained and not nan_only and not flags16.get("poly_distinguishes_signed_zero")
+                if nan_only and list(p) == NAN_WITNESS:
+                    nan_witness_reproduced.append(True)
+                    ctx.violation(NAN_KEY, "oracle",
+                                  "a polymorphic function called twice with the comptime argument NaN creates two specialisations (same_comptime_value: a ~= a), the property asks for one: specialisation per call %s" % used,
+                                  detail={"program": r["src"], "stdout": r["out"], "model": m})
+                    continue
+                if nan_only:
+                    nan_instances.append((r["src"], used))
+                    continue
                 if only_signed_zero and list(p) == SIGNED_ZERO_WITNESS:
                     zero_witness_reproduced.append(True)
                     ctx.violation(SIGNED_ZERO_KEY, "oracle",
@@ -591,6 +617,10 @@ def correspond(ctx):
                         "a name declared by the body of a generic is visible at the use site after the instantiation (prints %s) although the canonical witness did not reproduce" % seen,
                         {"program": src})
     stats["leak_instances_shrunk_to_witness"] = len(leak_instances) if leak_witness_reproduced else 0
+    if nan_instances and not nan_witness_reproduced:
+        for src, got in nan_instances[:3]:
+            oracle_fail("polyc: " + src.replace("\n", " ; ")[:500], "NaN comptime arguments get one specialisation per call (%s) although the canonical witness did not reproduce" % got, {"program": src})
+    stats["nan_instances_same_shape_as_witness"] = len(nan_instances) if nan_witness_reproduced else 0
     if zero_instances and not zero_witness_reproduced:
         for src, got in zero_instances[:3]:
             oracle_fail("polyc: " + src.replace("\n", " ; ")[:500], "0.0 / -0.0 share a specialisation (%s) although the canonical witness did not reproduce" % got, {"program": src})
